@@ -29,6 +29,7 @@ var families = map[string]genFn{
 	"routes": genRoutes,
 	"status": genStatus,
 	"forge":  genForge,
+	"garbage": genGarbage,
 }
 
 func main() {
